@@ -46,9 +46,9 @@ FORESTS = make_enum(LEAVES)
 FORESTS_NA = make_enum(LEAVES_NO_ABORT)
 
 
-def render(forest):
-    """s-expression text of a forest, numbering the panics in program order."""
-    counter = [0]
+def render(forest, first=0):
+    """s-expression text of a forest, numbering the panics in program order (from first + 1)."""
+    counter = [first]
 
     def r_tree(t):
         if isinstance(t, tuple):
@@ -155,6 +155,17 @@ def gen(rng, tier):
             fa, fb = rng.choice(pool3), rng.choice(pool3)
             for s in interleavings(ticks(fa), ticks(fb)):
                 out.append(two(fa, fb, s))
+    # threads released together and left to run freely: their steps (the hook and its backtrace capture included)
+    # overlap in time for real.  Same-shaped programs make the panics coincide; mixed shapes shift them.
+    shapes = [f for n in range(2, 6) for f in FORESTS_NA(n)
+              if any(isinstance(t, tuple) and "P" in t[1] for t in f)]
+    for i in range(24 if tier == "quick" else 300):
+        k = [2, 4, 8, 16][i % 4]
+        if i % 3 == 2:
+            progs = [("enable",) + rng.choice(shapes) for _ in range(k)]
+        else:
+            progs = [("enable",) + rng.choice(shapes)] * k
+        out.append("(panic-free %s)" % " ".join(render(p, 100 * j) for j, p in enumerate(progs)))
     # the child-process probes are slow: spread them over the shards
     rng.shuffle(out)
     return out
@@ -190,12 +201,12 @@ def nest_depth(line):
 
 
 def distribution(lines):
-    d = {"single": 0, "two_threads": 0, "with_catch": 0, "with_panic": 0, "panic_inside_catch": 0,
+    d = {"single": 0, "two_threads": 0, "free_threads": 0, "with_catch": 0, "with_panic": 0, "panic_inside_catch": 0,
          "with_fallback_abort": 0, "with_disable_after_enable": 0}
     depth = {}
     length = {}
     for l in lines:
-        kind = "single" if l.startswith("(panic-prog") else "two_threads"
+        kind = "single" if l.startswith("(panic-prog") else ("free_threads" if l.startswith("(panic-free") else "two_threads")
         d[kind] += 1
         if "(catch" in l:
             d["with_catch"] += 1
@@ -299,7 +310,9 @@ PROP = {
             "every interleaving of their atomic steps, 2500 / 60000 sampled pairs of programs with <=3 nodes under a "
             "random interleaving, and (thorough) all interleavings of 1500 sampled pairs; two real threads driven in "
             "lock-step through channels (a catch_panic whose body spans several steps keeps the thread inside the "
-            "closure between steps).  Non-trivial = the case contains both a catch_panic and a panic; distinct = "
+            "closure between steps); and 24 / 300 cases of 2, 4, 8 or 16 threads released by a barrier and left to run freely (two thirds "
+            "with the same program on every thread, so that the panics and the hook's backtrace captures coincide in "
+            "time), whose answer is each thread's answer when run alone (C19_interleaving_matches_alone).  Non-trivial = the case contains both a catch_panic and a panic; distinct = "
             "distinct case line.",
     "assumptions": [
         "real unwinding, catch_unwind, std::panic::set_hook/take_hook and thread_local! are trusted (modelled, tied "
